@@ -16,6 +16,8 @@ from engine.seq import ScriptSocket, AllSegmentations, FixedCtl
 from refmodels.smtp_session import RefSession
 from worlds.server_world import run_server, reply_codes
 
+from fakes.faketls import FakeContext
+
 PROPERTY = 'C09'
 LEVEL = 'model_checking'
 EXHAUSTIVE = True
@@ -77,12 +79,21 @@ def all_streams():
                             t2 = transaction(2, 1, b2)
                             out.append({'size': size, 'stream': b'EHLO c\r\n' + t1 + between + t2 + end, 'ntx': 2,
                                         'desc': [b1, n1, b2s(between), b2]})
+    # a STARTTLS that the application declines, commands pipelined behind it
+    for size in (None, SIZE_LIMIT):
+        for tail in (b'MAIL FROM:<s1@x>\r\nRCPT TO:<r10@y>\r\nDATA\r\nx\r\n.\r\nQUIT\r\n', b'NOOP\r\nQUIT\r\n', b'EHLO again\r\nMAIL FROM:<s1@x>\r\nQUIT\r\n'):
+            out.append({'size': size, 'stream': b'EHLO c\r\nSTARTTLS\r\n' + tail, 'ntx': 1, 'desc': ['declined-starttls', b2s(tail)], 'decline': True})
     return out
 
 
-def body_for(size):
+def body_for(size, decline=False):
     def body(sock):
-        trace, sent, end = run_server(sock, size_limit=size)
+        if decline:
+            # STARTTLS is offered, the application declines it (454): the session stays in clear text and goes on
+            trace, sent, end = run_server(sock, size_limit=size, verdict=lambda name, args: '454' if name == 'STARTTLS' else None,
+                                          context=FakeContext(False))
+        else:
+            trace, sent, end = run_server(sock, size_limit=size)
         return (trace, sent, end)
     return body
 
@@ -91,9 +102,23 @@ def reference(stream, size):
     return RefSession(size_limit=size).run(stream)
 
 
-def judge(stream, size, outs):
+def judge(stream, size, outs, decline=False):
     """-> list of (signature, message)."""
     v = []
+    if decline:
+        # no reference parse for this server configuration: one outcome under every segmentation, and the commands behind the
+        # declined STARTTLS are answered
+        if len(outs) != 1:
+            a, b = sorted(outs, key=repr)[:2]
+            v.append(({'kind': 'segmentation-dependent', 'what': 'declined-starttls', 'size_limit': size is not None, 'toobig_involved': False},
+                      '%d different outcomes for one stream; e.g. trace %r codes %r  VS  trace %r codes %r'
+                      % (len(outs), a[0], reply_codes(a[1]), b[0], reply_codes(b[1]))))
+        for o in sorted(outs, key=repr)[:1]:
+            want = stream.count(b'\r\n') + 1 - (1 if b'DATA\r\nx\r\n.\r\n' in stream else 0)     # content line + dot line: one reply
+            if len(reply_codes(o[1])) != want:
+                v.append(({'kind': 'reference-mismatch', 'what': 'reply-count', 'size_limit': size is not None, 'oversize_body': False},
+                          'expected %d replies (banner + one per command / message), got %r' % (want, reply_codes(o[1]))))
+        return v
     ref_trace, ref_codes = reference(stream, size)
     big = size is not None and b'AAAA' in stream
     if len(outs) != 1:
@@ -125,7 +150,7 @@ def judge(stream, size, outs):
 
 def explore_stream(item, res, full):
     stream, size = item['stream'], item['size']
-    body = body_for(size)
+    body = body_for(size, item.get('decline', False))
     outs = set()
     n = len(stream)
     if full:
@@ -171,9 +196,9 @@ def run_config(cfg, tier, seed):
         item = items[i]
         full = cfg['full']
         outs = explore_stream(item, res, full)
-        for sig, msg in judge(item['stream'], item['size'], outs):
+        for sig, msg in judge(item['stream'], item['size'], outs, item.get('decline', False)):
             res.violation(sig, 'stream %r SIZE=%r: %s' % (item['stream'], item['size'], msg),
-                          {'stream': b2s(item['stream']), 'size': item['size'], 'full': full})
+                          {'stream': b2s(item['stream']), 'size': item['size'], 'full': full, 'decline': item.get('decline', False)})
         if i % 101 == 0:
             res.sample({'stream': b2s(item['stream']), 'size_limit': item['size'], 'all_segmentations': full})
     return res.as_dict()
@@ -186,9 +211,9 @@ def vacuity(counters, tier):
 
 def replay(rep):
     res = Result()
-    item = {'stream': s2b(rep['stream']), 'size': rep['size']}
+    item = {'stream': s2b(rep['stream']), 'size': rep['size'], 'decline': rep.get('decline', False)}
     outs = explore_stream(item, res, rep.get('full', True))
-    vs = judge(item['stream'], item['size'], outs)
+    vs = judge(item['stream'], item['size'], outs, item['decline'])
     if vs:
         return True, vs[0][1]
     return False, 'one outcome under every explored segmentation, equal to the reference parse'
